@@ -13,8 +13,9 @@ and after every action the observations are projected into the vocabulary of the
 future, the content of the persister, the processes that exist in the launcher's interpreter with the trace of the step
 functions they executed, and the log of the counting object loaders.
 
-Nothing of plumpy is changed: the three process classes below are ordinary user subclasses (they override `init`,
-`load_instance_state` and their step functions to leave a trace), the loaders are ordinary ObjectLoader subclasses.
+Nothing of plumpy is changed: the process classes below are ordinary user subclasses (they override `init`,
+`load_instance_state` and their step functions to leave a trace; Late also `on_finished`; Chain is a WorkChain that keeps its
+working data in `self.ctx`), the loaders are ordinary ObjectLoader subclasses.
 """
 import asyncio
 import logging
@@ -46,11 +47,15 @@ class Boom(Exception):
     """The error of class Exc."""
 
 
+class StoreFail(Exception):
+    """The error of class Late (raised by on_finished, after the process future was resolved with the outputs)."""
+
+
 _WORLD = [None]          # the World whose interpreter the instances live in
 _SILENT = [0]            # > 0 while the harness itself recreates processes to look into a checkpoint
 
 
-class _Traced(plumpy.Process):
+class _TracedMixin:
     CLS = '-'
 
     @classmethod
@@ -73,6 +78,10 @@ class _Traced(plumpy.Process):
         steps = getattr(self, '_verif_steps', None)
         if steps is not None:
             steps.append(name)
+
+
+class _Traced(_TracedMixin, plumpy.Process):
+    pass
 
 
 class FinProc(_Traced):
@@ -106,7 +115,42 @@ class WaitProc(_Traced):
         self.out('s', 2)
 
 
-CLASSES = {'Fin': FinProc, 'Exc': ExcProc, 'Wait': WaitProc}
+class LateProc(_Traced):
+    """Finishes, then fails while handling its own completion: FINISHED is entered (the process future is resolved with the
+    outputs), on_finished raises, plumpy enters EXCEPTED and replaces the resolved future by one carrying the error."""
+    CLS = 'Late'
+
+    def run(self):
+        self._trace('run')
+        self.out('v', self.inputs.v)
+        self.out('s', 1)
+
+    def on_finished(self):
+        super().on_finished()
+        raise StoreFail('could not store the results')
+
+
+class ChainProc(_TracedMixin, plumpy.WorkChain):
+    """A WorkChain that keeps its working data in the context (a saved member the running process goes on changing), with the
+    usual 'only initialise what a checkpointed step did not leave behind' idiom."""
+    CLS = 'Chain'
+
+    @classmethod
+    def define(cls, spec):
+        super().define(spec)
+        spec.outline(cls.gather, cls.report)
+
+    def gather(self):
+        self._trace('gather')
+        self.ctx.setdefault('items', []).append('item')
+
+    def report(self):
+        self._trace('report')
+        self.out('v', self.inputs.v)
+        self.out('n', len(self.ctx.items))
+
+
+CLASSES = {'Fin': FinProc, 'Exc': ExcProc, 'Wait': WaitProc, 'Late': LateProc, 'Chain': ChainProc}
 DEFAULT_NAMES = {'%s:%s' % (c.__module__, c.__name__): k for k, c in CLASSES.items()}
 CUSTOM_NAMES = {'custom:%s' % k: k for k in CLASSES}
 
@@ -232,6 +276,8 @@ def error_name(exc, kind):
         return 'TaskRejected'
     if isinstance(exc, Boom):
         return 'Boom'
+    if isinstance(exc, StoreFail):
+        return 'StoreFail'
     # a missing checkpoint: which exception class the persister raises is C14's business (finding D14b)
     if isinstance(exc, plumpy.PersistenceError) or (kind == 'mem' and type(exc) is KeyError) \
             or (kind == 'pickle' and type(exc) is FileNotFoundError):
@@ -296,7 +342,8 @@ class World:
     def register(self, proc, origin):
         proc._verif_steps = []
         self.insts.append(proc)
-        frm = [LABEL[proc.state], outs_of(proc.outputs)] if origin == 'loaded' else ['-', []]
+        frm = ([LABEL[proc.state], outs_of(proc.outputs), ctx_of(proc), err_of(proc, self.cfg['kind'])] if origin == 'loaded'
+               else ['-', [], [], '-'])
         self.meta.append({'origin': origin, 'from': frm})
         if origin == 'new':
             self.newpids.append(proc.pid)
@@ -466,7 +513,8 @@ class World:
                     # look into the checkpoint the public way: recreate the process it describes (in a loop of its own)
                     twin = bundle.unbundle(plumpy.LoadSaveContext(loader=self.custom, loop=vloop.VLoop()))
                     val = self.decoded[raw] = (twin.pid, [getattr(twin, 'CLS', type(twin).__name__), scheme, LABEL[twin.state],
-                                                          str(twin.inputs.v), outs_of(twin.outputs)])
+                                                          str(twin.inputs.v), outs_of(twin.outputs), ctx_of(twin),
+                                                          err_of(twin, self.cfg['kind'])])
                 key = '%s/%s' % (self.mpid(cp.pid), 'None' if cp.tag is None else cp.tag)
                 if val[0] != cp.pid:
                     key += '!pid-mismatch'
@@ -479,7 +527,7 @@ class World:
         out = []
         for p, m in zip(self.insts, self.meta):
             out.append([self.mpid(p.pid), p.CLS, m['origin'], m['from'], LABEL[p.state], str(p.inputs.v), outs_of(p.outputs),
-                        list(p._verif_steps)])
+                        ctx_of(p), err_of(p, self.cfg['kind']), list(p._verif_steps)])
         return out
 
     def projection(self):
@@ -493,6 +541,22 @@ class World:
 
 def outs_of(d):
     return [[k, str(v)] for k, v in d.items()]
+
+
+def ctx_of(proc):
+    """The working data of a process with a context: the list ctx.items (the only key the classes here use); [] without one."""
+    ctx = getattr(proc, 'ctx', None)
+    if ctx is None:
+        return []
+    data = dict(vars(ctx))
+    items = [str(x) for x in data.pop('items', [])]
+    return items + ['other:%s' % k for k in sorted(data)]
+
+
+def err_of(proc, kind):
+    """The error a process ended with (Process.exception()), '-' if it did not end EXCEPTED."""
+    exc = proc.exception()
+    return '-' if exc is None else error_name(exc, kind)
 
 
 # ---- the specification's state in the same shape ---------------------------------------------------------------
@@ -512,9 +576,10 @@ def project_model(S):
     st = S['store']
     if isinstance(st, dict):
         for key, snap in st.items():
-            store['%s/%s' % (key[0], key[1])] = [snap['cls'], snap['name'], snap['st'], snap['v'], norm(snap['outs'])]
-    procs = [[p['pid'], p['cls'], p['origin'], [p['from']['st'], norm(p['from']['outs'])], p['st'], p['v'], norm(p['outs']),
-              list(p['steps'])] for p in S['procs']]
+            store['%s/%s' % (key[0], key[1])] = [snap['cls'], snap['name'], snap['st'], snap['v'], norm(snap['outs']),
+                                                 norm(snap['ctx']), snap['err']]
+    procs = [[p['pid'], p['cls'], p['origin'], [p['from']['st'], norm(p['from']['outs']), norm(p['from']['ctx']), p['from']['err']],
+              p['st'], p['v'], norm(p['outs']), norm(p['ctx']), p['err'], list(p['steps'])] for p in S['procs']]
     return {'replies': [reply(r) for r in S['replies']], 'store': store, 'procs': procs,
             'log': [[e['task'], e['loader'], e['name'], e['cls']] for e in S['log']], 'looperr': []}
 
